@@ -59,6 +59,17 @@ impl Pair {
         sim.device_handler.add_device(InterruptFromFn::new(move || cell.lock().unwrap().take().map(|(v, p)| Interrupt::vectored(v, p))), &[]).expect("add irq device");
         Pair { sim, r, kb, ds, irq, steps: 0 }
     }
+    /// Assemble `text` with the crate, load it into the simulator and mirror the image into the reference.
+    /// Returns upper-cased label -> address.
+    pub fn load_text(&mut self, text: &str) -> Result<std::collections::BTreeMap<String, u16>, String> {
+        let ast = lc3_ensemble::parse::parse_ast(text).map_err(|e| format!("parse: {e:?}"))?;
+        let obj = lc3_ensemble::asm::assemble_debug(ast, text).map_err(|e| format!("assemble: {:?}", e.kind))?;
+        self.sim.load_obj_file(&obj).map_err(|e| format!("load: {e:?}"))?;
+        for (a, w) in obj.addr_iter() {
+            match w { Some(v) => self.r.mem[a as usize] = v, None => { let v = self.sim.mem[a].get(); self.sim.mem[a] = Word::new_init(v); } }
+        }
+        Ok(obj.symbol_table().map(|s| s.label_iter().map(|(n, a, _)| (n.to_uppercase(), a)).collect()).unwrap_or_default())
+    }
     pub fn set_mem(&mut self, a: u16, v: u16) { self.sim.mem[a] = Word::new_init(v); self.r.mem[a as usize] = v; }
     pub fn set_reg(&mut self, i: usize, v: u16) { self.sim.reg_file[reg(i)].set(v); self.r.reg[i] = v; }
     pub fn set_pc(&mut self, v: u16) { self.sim.pc = v; self.r.pc = v; }
@@ -153,4 +164,19 @@ pub fn biased_word(rng: &mut crate::rng::Rng) -> u16 {
 pub fn boundary_addr(rng: &mut crate::rng::Rng) -> u16 {
     const B: [u16; 24] = [0x0000, 0x0001, 0x00FF, 0x0100, 0x01FF, 0x0200, 0x2FFE, 0x2FFF, 0x3000, 0x3001, 0x7FFF, 0x8000, 0xFDFE, 0xFDFF, 0xFE00, 0xFE02, 0xFE04, 0xFE06, 0xFFF0, 0xFFFC, 0xFFFE, 0xFFFF, 0x4000, 0xC000];
     if rng.chance(2, 3) { *rng.pick(&B) } else { rng.u16() }
+}
+
+/// A device that records every call made to it (C09, C30, C32).
+#[derive(Clone, Default, Debug)]
+pub struct Recorder { pub log: Arc<Mutex<Vec<(char, u16, u16)>>>, pub answer: u16, pub tag: u16 }
+impl Recorder {
+    pub fn new(tag: u16) -> Recorder { Recorder { log: Arc::new(Mutex::new(vec![])), answer: 0x1200 | tag, tag } }
+    pub fn take(&self) -> Vec<(char, u16, u16)> { std::mem::take(&mut *self.log.lock().unwrap()) }
+    pub fn len(&self) -> usize { self.log.lock().unwrap().len() }
+}
+impl lc3_ensemble::sim::device::ExternalDevice for Recorder {
+    fn io_read(&mut self, addr: u16, effectful: bool) -> Option<u16> { self.log.lock().unwrap().push((if effectful { 'R' } else { 'r' }, addr, 0)); Some(self.answer) }
+    fn io_write(&mut self, addr: u16, data: u16) -> bool { self.log.lock().unwrap().push(('W', addr, data)); true }
+    fn io_reset(&mut self) { self.log.lock().unwrap().push(('X', 0, 0)); }
+    fn poll_interrupt(&mut self) -> Option<Interrupt> { None }
 }
